@@ -159,13 +159,23 @@ def index_methods(ctx):
         mask = np.array([ctx.rng.random() < 0.5 for _ in range(ix.shape[0])], dtype=bool)
         mapping = {int(v): ctx.rng.randrange(0, 5) for v in set(a.reshape(-1).tolist()) | {int(ix.common)}}
         m0, mk0 = dict(mapping), mask.copy()
+        other = ix.copy()       # same content, another common value: forces a shift inside column_stack / append
+        present = sorted(set(a.reshape(-1).tolist()))
+        other.shift_common(ctx.rng.choice([v for v in present if v != ix.common] or [int(ix.common) + 1]))
+        other_before = I.snapshot(other)
         calls += [("to_array", lambda: ix.to_array()), ("to_array(mapping)", lambda: ix.to_array(mapping=mapping)),
                   ("filtered", lambda: ix.filtered(mask, int(mask.sum()))), ("reindexed", lambda: ix.reindexed(mapping)),
                   ("reindexed(copy=False)", lambda: ix.reindexed(mapping, copy=False)),
                   ("common_rowids", lambda: ix.common_rowids(*([0] if nd == 2 else []))),
                   ("items(force)", lambda: list(ix.items(force=True))), ("to_dict(force)", lambda: ix.to_dict(force=True)),
                   ("column_stack", lambda: column_stack([ix, ix.copy()], new_common=int(ix.common) + 1)),
-                  ("column_stack(copy)", lambda: column_stack([ix], copy=True))]
+                  ("column_stack(copy)", lambda: column_stack([ix], copy=True)),
+                  ("column_stack(copy, new_common)", lambda: column_stack([ix, ix.copy()], new_common=int(ix.common) + 1, copy=True)),
+                  ("column_stack(other common, copy)", lambda: column_stack([other, ix], copy=True)),
+                  ("column_stack(other common)", lambda: column_stack([ix, other])),
+                  ("column_stack(other common, new_common=None, copy)", lambda: column_stack([ix, other, ix], new_common=None, copy=True)),
+                  ("append to a copy", lambda: ix.copy().append(other)),
+                  ("update on a copy", lambda: ix.copy().update(dict(other)) if other.shape == ix.shape else None)]
     if nd == 2:
         prec = sorted(set(a.reshape(-1).tolist()) | {int(ix.common)})
         p0 = list(prec)
@@ -182,6 +192,9 @@ def index_methods(ctx):
             ctx.oracle_fail("iindex.%s changed its receiver" % name, {"index": I.to_json(I.from_json(
                 {"shape": list(before[0]), "common": before[1], "entries": []})), "method": name}, cls="C17-index-mutated")
             break
+    if nd <= 2 and I.snapshot(other) != other_before:
+        ctx.oracle_fail("an index operation changed an operand other than its receiver", {"index": I.to_json(ix), "other": I.to_json(other)},
+                        cls="C17-index-mutated")
     if nd <= 2 and (mapping != m0 or not np.array_equal(mask, mk0)):
         ctx.oracle_fail("an index method changed its mapping / mask argument", {"index": I.to_json(ix)}, cls="C17-input-mutated")
     if nd == 2 and prec != p0:
